@@ -39,7 +39,7 @@ def decoded_kinds(table):
     return DECODED_KINDS
 
 
-ALIAS = {'PERF_THD_Data': 0xdead1000, 'PERF_STK_UHdr': 0xdead1004, 'PERF_STK_UData': 0xdead1008}
+ALIAS = {'PERF_THD_Data': 0xdead1000, 'PERF_STK_UHdr': 0xdead1004, 'PERF_STK_UData': 0xdead1008, 'DYLD_uuid_map_a': 0xdead1010, 'DYLD_uuid_shared_cache_a': 0xdead1014}
 STAMPS = ['up']          # 'down': the records carry DEcreasing timestamps (position in the stream, not the stamp, defines a window)
 CODES = ['stock']        # 'alias-added': the table names a second id for each nested sampler kind, listed after the stock one;
 #                          'alias-used': the nested sampler records carry those second ids
@@ -422,6 +422,16 @@ class C20(Check):
                          outcome=h64(('la', sum(1 for k in nested if k[0] in 'as'))))
                 if bad:
                     acc.violation(bad[0], {'kind': 'launch', 'nested': list(nested)}, bad[1])
+                if len(nested) <= 3:
+                    for codes in ('alias-added', 'alias-used'):
+                        CODES[0] = codes
+                        try:
+                            bad = judge_launch(nested)
+                        finally:
+                            CODES[0] = 'stock'
+                        acc.case(nontrivial=len(nested) >= 2, transitions=len(nested) + 2, state=h64(('la', nested, codes)), outcome=h64(('la', codes)))
+                        if bad:
+                            acc.violation(bad[0] + '@table-with-two-ids-per-name', {'kind': 'launch', 'nested': list(nested), 'codes': codes}, bad[1])
         elif kind == 'pairs':
             wins = [(), ('H',), ('T',), ('H', 'D1'), ('T', 'H', 'D1', 'D2'), ('D1',), ('W', 'D1')]
             for f1, i1, f2, i2 in itertools.product((0x9, 0x1, 0x0), wins, (0x9, 0x8, 0x1, 0x0), wins):
